@@ -686,3 +686,114 @@ Proof.
   destruct (find_field_name c k f F) as [N I]. pose proof (run_validators_all _ _ _ V f I) as H.
   rewrite N, lookup_fill, F, L in H. exact H.
 Qed.
+
+(* ----------------------------------- structured conversion changes no value *)
+
+Lemma q_eqb_refl : forall q, q_eqb q q = true.
+Proof. intros [n d]. unfold q_eqb. simpl. rewrite Z.eqb_refl, Pos.eqb_refl. reflexivity. Qed.
+
+Lemma cfg_eqb_scalar_refl : forall v,
+  match v with VList _ | VTup _ | VDict _ | VObj _ _ => True | _ => cfg_eqb v v = true end.
+Proof.
+  destruct v; simpl; try exact I; try reflexivity.
+  - apply Bool.eqb_reflx.
+  - apply Z.eqb_refl.
+  - apply q_eqb_refl.
+  - destruct k; reflexivity.
+  - apply String.eqb_refl.
+Qed.
+
+Definition veq_list :=
+  fix go (x y : list cfg) {struct x} : bool :=
+    match x, y with
+    | [], [] => true
+    | a' :: x', b' :: y' => veq a' b' &&& go x' y'
+    | _, _ => false
+    end.
+Definition veq_kv :=
+  fix go (x y : list (string * cfg)) {struct x} : bool :=
+    match x, y with
+    | [], [] => true
+    | (k, a') :: x', (k', b') :: y' => String.eqb k k' &&& veq a' b' &&& go x' y'
+    | _, _ => false
+    end.
+
+Lemma veq_list_plain : forall l, Forall (fun v => veq v (plain v) = true) l -> veq_list l (map plain l) = true.
+Proof. induction 1 as [|v l Hv _ IH]; simpl; [reflexivity|]. rewrite Hv. exact IH. Qed.
+
+Lemma veq_kv_plain : forall kv, Forall (fun e => veq (snd e) (plain (snd e)) = true) kv ->
+  veq_kv kv (map (fun e => (fst e, plain (snd e))) kv) = true.
+Proof.
+  induction 1 as [|[k v] l Hv _ IH]; simpl; [reflexivity|]. simpl in Hv. rewrite String.eqb_refl, Hv. exact IH.
+Qed.
+
+(* the plain container of a value holds the same value *)
+Lemma veq_plain : forall v, veq v (plain v) = true.
+Proof.
+  induction v using cfg_ind'; simpl; try reflexivity.
+  - apply Bool.eqb_reflx.
+  - apply Z.eqb_refl.
+  - apply q_eqb_refl.
+  - destruct k; reflexivity.
+  - apply String.eqb_refl.
+  - apply (veq_list_plain l H).
+  - apply (veq_list_plain l H).
+  - apply (veq_kv_plain kv H).
+  - apply (veq_kv_plain kv H).
+Qed.
+
+(* OmegaConf.structured + to_container changes no value: the container holds, key by key
+   and element by element, the value the attrs tree held (ints on float fields become the
+   float of the same value, tuples become lists, objects become dicts) *)
+Theorem to_cfg_preserves_values : forall cs v t o c, to_cfg cs t o v = Ok c -> veq v c = true.
+Proof.
+  intros cs. induction v using cfg_ind'; intros t o c0 T.
+  - simpl in T. destruct (o || ty_any t); inversion T; reflexivity.
+  - simpl in T. inversion T; reflexivity.
+  - simpl in T. destruct t; inversion T; simpl; apply Bool.eqb_reflx.
+  - simpl in T. destruct t; inversion T; simpl; [apply Z.eqb_refl | apply Z.eqb_refl | apply q_eqb_refl].
+  - simpl in T. destruct t; inversion T; simpl; apply q_eqb_refl.
+  - simpl in T. destruct t; inversion T; destruct k; reflexivity.
+  - simpl in T. destruct t; inversion T; simpl; apply String.eqb_refl.
+  - simpl in T. assert (c0 = plain (VList l)) as -> by (destruct t; inversion T; reflexivity). apply veq_plain.
+  - simpl in T. assert (c0 = plain (VList l)) as -> by (destruct t; inversion T; reflexivity).
+    exact (veq_plain (VList l)).
+  - simpl in T. assert (c0 = plain (VDict kv)) as -> by (destruct t; inversion T; reflexivity). apply veq_plain.
+  - simpl in T. destruct (negb _); [discriminate|]. destruct (find_class cs c) as [cd|]; [|discriminate].
+    apply bind_ok in T. destruct T as [kv' [G E]]. inversion E; subst. clear E.
+    change (veq_kv kv kv' = true). revert kv' G.
+    induction kv as [|[k x] r IH]; intros kv' G.
+    + inversion G; subst. reflexivity.
+    + destruct (find_field cd k) as [f|]; [|discriminate].
+      apply bind_ok in G. destruct G as [x' [Gx G]].
+      apply bind_ok in G. destruct G as [r' [Gr G]]. inversion G; subst.
+      inversion H as [|e l Hx Hr]; subst. simpl in Hx.
+      simpl. rewrite String.eqb_refl, (Hx _ _ _ Gx). apply IH; assumption.
+Qed.
+
+Lemma veq_kv_lookup : forall x y k a, veq_kv x y = true -> lookup k x = Some a ->
+  exists b, lookup k y = Some b /\ veq a b = true.
+Proof.
+  induction x as [|[k0 a0] x IH]; intros [|[k1 b0] y] k a V L; simpl in V, L; try discriminate.
+  apply andl_true in V. destruct V as [V V2]. apply andl_true in V. destruct V as [V0 V1].
+  apply String.eqb_eq in V0. subst k1. simpl. destruct (String.eqb k k0).
+  - inversion L; subst. exists b0. split; [reflexivity | exact V1].
+  - apply (IH y k a V2 L).
+Qed.
+
+(* ... so the value at every path of the attrs tree is found at the same path of the container *)
+Theorem veq_get : forall p a b x, veq a b = true -> get p a = Some x ->
+  exists y, get p b = Some y /\ veq x y = true.
+Proof.
+  induction p as [|k r IH]; intros a b x V G.
+  - simpl in G. inversion G; subst. exists b. split; [reflexivity | exact V].
+  - simpl in G. destruct a; simpl in G; try discriminate.
+    + destruct b; simpl in V; try discriminate. destruct (lookup k kv) as [a1|] eqn:L; [|discriminate].
+      destruct (veq_kv_lookup kv kv0 k a1 V L) as [b1 [Lb Vb]]. simpl. rewrite Lb. apply (IH a1 b1 x Vb G).
+    + destruct b; simpl in V; try discriminate. destruct (lookup k kv) as [a1|] eqn:L; [|discriminate].
+      destruct (veq_kv_lookup kv kv0 k a1 V L) as [b1 [Lb Vb]]. simpl. rewrite Lb. apply (IH a1 b1 x Vb G).
+Qed.
+
+Theorem to_cfg_value_at : forall cs v t o c p x, to_cfg cs t o v = Ok c -> get p v = Some x ->
+  exists y, get p c = Some y /\ veq x y = true.
+Proof. intros. eapply veq_get; [eapply to_cfg_preserves_values; eassumption | assumption]. Qed.
